@@ -91,6 +91,8 @@ type G struct {
 	Info *types.Info
 	Body *ast.BlockStmt
 	C    *cfg.CFG
+	// caseTag maps the value expression of a tagged switch case to the switch tag
+	caseTag map[ast.Expr]ast.Expr
 }
 
 // Loc is a position in the graph: node I of block B.
@@ -101,7 +103,34 @@ type Loc struct {
 
 func NewG(info *types.Info, body *ast.BlockStmt) *G {
 	c := cfg.New(body, func(call *ast.CallExpr) bool { return !noReturn(info, call) })
-	return &G{Info: info, Body: body, C: c}
+	g := &G{Info: info, Body: body, C: c, caseTag: map[ast.Expr]ast.Expr{}}
+	// go/cfg represents `switch tag { case v: }` by a conditional block whose condition node is just v
+	ast.Inspect(body, func(n ast.Node) bool {
+		sw, ok := n.(*ast.SwitchStmt)
+		if !ok || sw.Tag == nil {
+			return true
+		}
+		for _, cs := range sw.Body.List {
+			for _, e := range cs.(*ast.CaseClause).List {
+				g.caseTag[e] = sw.Tag
+			}
+		}
+		return true
+	})
+	return g
+}
+
+// CondAt returns the branch condition of block b with tagged-switch cases
+// spelled out as `tag == value`.
+func (g *G) CondAt(b *cfg.Block) ast.Expr {
+	cond := CondOf(b)
+	if cond == nil {
+		return nil
+	}
+	if tag, ok := g.caseTag[cond]; ok {
+		return &ast.BinaryExpr{X: tag, Op: token.EQL, OpPos: cond.Pos(), Y: cond}
+	}
+	return cond
 }
 
 // Find returns the location of the innermost CFG node containing n.
@@ -329,7 +358,7 @@ func (g *G) GuardedByGen(target Loc, holds func(cond ast.Expr, truth bool) bool,
 				held = true
 			}
 		}
-		cond := CondOf(s.b)
+		cond := g.CondAt(s.b)
 		for k, sc := range s.b.Succs {
 			h := held
 			if cond != nil && !h {
